@@ -16,8 +16,14 @@
      l:<p>><tmpl>                              _lower
   <trace>  = child^parent#<entries of dependents[child]>><out>|…   (the `_simplify_up` firings, in order)
   The same table text drives real stub `Expr` subclasses in harness/props/c01.py.
+
+  Fragment of real classes (DxModel/Fragment.lean; the literal of a node is the sentence code `encS`):
+    driver frag_simplify tree=<t> fuel=<n>        → OK <t> | ERR nonconverge | ERR fuel      (`simplify` with `fragRules`)
+    driver frag_once tree=<t> fuel=<n>            → OK <t> #<firings>                         (one `simplify_once`)
+    driver frag_schema tree=<t>                   → cols=<a,b|-> ser=<0|1> | NONE             (`columns`, `ndim == 1`)
 -/
 import DxModel.Drivers
+import DxModel.Fragment
 import Driver.Proto
 open Dx Dx.Proto
 namespace Dx.Drv.Drivers
@@ -150,7 +156,31 @@ def pStage : Nat → Option Stage
   | 5 => some .fused
   | _ => none
 
+/-! the fragment of real classes -/
+
+def handleFrag (verb : String) (rest : List String) : Option String :=
+  let kv := kvs rest
+  match (get kv "tree").bind pTree with
+  | none => some "BAD tree"
+  | some e =>
+    match verb with
+    | "frag_schema" => match Dx.Frag.schemaOf e with
+      | some s => some s!"cols={if s.cols.isEmpty then "-" else joinWith "," s.cols} ser={bool01 s.ser}"
+      | none => some "NONE"
+    | "frag_simplify" => match getNat kv "fuel" with
+      | some fuel => some (rRes (simplify Dx.Frag.fragRules fuel e) none)
+      | none => some "BAD fuel"
+    | "frag_once" => match getNat kv "fuel" with
+      | some fuel =>
+        let r := simplifyOnce Dx.Frag.fragRules fuel e ⟨collectDependents e, [], [], false⟩
+        some (if r.2.exhausted then "ERR fuel" else s!"OK {rExpr r.1} #{r.2.trace.length}")
+      | none => some "BAD fuel"
+    | _ => some "BAD verb"
+
 def handle : List String → Option String
+  | "driver" :: "frag_schema" :: rest => handleFrag "frag_schema" rest
+  | "driver" :: "frag_simplify" :: rest => handleFrag "frag_simplify" rest
+  | "driver" :: "frag_once" :: rest => handleFrag "frag_once" rest
   | "driver" :: "collect_dependents" :: rest =>
     match (get (kvs rest) "tree").bind pTree with
     | some e =>
